@@ -24,6 +24,16 @@ fn main() {
     if args.len() < 3 {
         usage();
     }
+    if args[1] == "emitrust" {
+        let src = if std::path::Path::new(&args[2]).exists() { std::fs::read_to_string(&args[2]).unwrap() } else { args[2].clone() };
+        let mut ctx = mimium_lang::ExecContext::new([].into_iter(), None, mimium_lang::Config::default());
+        ctx.prepare_compiler();
+        match ctx.get_compiler().unwrap().emit_rust(&src) {
+            Ok(o) => println!("{}", o.source),
+            Err(es) => es.iter().for_each(|e| println!("ERR {e}")),
+        }
+        return;
+    }
     if args[1] == "c15obs" {
         let pi: usize = args[2].parse().unwrap();
         engine::quiet_panics();
